@@ -406,7 +406,40 @@ fn statics<'gc>(st: &mut State<'_, 'gc>) {
     }
 }
 
+// ---- the object-safe adapter: the same values traced as trait objects -------------------------
+pub trait Shape<'gc>: 'gc + gc_arena::collect::DynCollect<'gc> {}
+impl<'gc, T: Collect<'gc> + 'gc> Shape<'gc> for T {}
+gc_arena::collect::dyn_collect!(dyn Shape<'gc>);
+pub type DynShape<'gc> = Box<dyn Shape<'gc> + 'gc>;
+
+fn dyn_cases<'gc>(st: &mut State<'_, 'gc>) {
+    if st.only.is_some() && st.only.as_deref() != Some("dyn") {
+        return;
+    }
+    for n in [1usize, 4, 6] {
+        st.salt = n;
+        // a Vec of pointer-holding elements (strong and weak tokens in several patterns)
+        let (v, d) = make_n::<El<'gc>>(st, n);
+        let v: Vec<El<'gc>> = v;
+        run_case_as(st, "dyncase", "dyn:Shape(dyn_collect!)<-std::Vec", p1("arg0", d.clone()), vec![], &v as &dyn Shape<'gc>);
+        let b: Box<dyn Shape<'gc>> = Box::new(v.clone());
+        run_case_as(st, "dyncase", "std::Box<dyn:Shape><-std::Vec", p1("arg0", d), vec![], &b);
+        // a single element and a tuple with a plain-data position
+        let (e, ed) = make_n::<El<'gc>>(st, 1);
+        let (pl, pd) = make_n::<Pl>(st, 1);
+        let t = (e[0], pl[0]);
+        run_case_as(st, "dyncase", "dyn:Shape(dyn_collect!)<-tuple/2", vec![("arg0".to_string(), ed), ("arg1".to_string(), pd)], vec![], &t as &dyn Shape<'gc>);
+        // pointers themselves
+        let (g, id, drops) = st.token();
+        st.strong.push((id, Gc::downgrade(g), drops));
+        let (g2, id2, _) = st.token();
+        let w = Gc::downgrade(g2);
+        run_case_as(st, "dyncase", "dyn:Shape(dyn_collect!)<-crate::GcWeak", vec![], vec![("self", Some(id2), 'W')], &w as &dyn Shape<'gc>);
+    }
+}
+
 pub fn all_cases<'gc>(st: &mut State<'_, 'gc>, counts: &[usize]) {
+    dyn_cases(st);
     seq_family::<El<'gc>>(st, counts);
     seq_family::<Pl>(st, counts);
     single_family::<El<'gc>>(st);
